@@ -252,6 +252,27 @@ impl Property for C05 {
                         continue;
                     }
                 };
+                // the string API on the very same collection, in the very same order: it decodes and recovers, so
+                // it answers iff recovery does, and with the key of the message recovery returned
+                if decoded.len() == bytes.len() && ctx.ch.chance(1, 3) {
+                    use base64::{engine::Engine as _, prelude::BASE64_STANDARD};
+                    let joined = bytes.iter().map(|b| BASE64_STANDARD.encode(b)).collect::<Vec<_>>().join("\n");
+                    if let Ok(r) = guarded(|| star_wasm::group_shares(&joined, "e")) {
+                        let want = outcome.as_ref().ok().map(|m| {
+                            let mut k = vec![0u8; 16];
+                            sta_rs::derive_ske_key(m, b"e", &mut k);
+                            BASE64_STANDARD.encode(&k)
+                        });
+                        if r != want {
+                            return Err(Violation::new(
+                                "c05.wrong_message",
+                                "string_api_differs",
+                                format!("group_shares on the collection (first share of sharing {}, fault: {}) returned {} where recovery of the same shares in the same order gives {}", xs, applied, if r.is_some() { "a key" } else { "nothing" }, if want.is_some() { "another key / a key" } else { "an error" }),
+                            ));
+                        }
+                        ctx.stats.probe("string_api_agrees_with_recovery");
+                    }
+                }
                 let pos_class = if pos == 0 { 0u64 } else { 1 };
                 ctx.stats.state(mix(mix(FIELDS.iter().position(|f| *f == field).unwrap_or(0) as u64, kind as u64), mix(pos_class, outcome.is_ok() as u64)));
                 ev!(ctx, "  attempt: {} shares, first from sharing {}, fault [{}], first altered={} -> {}", shares.len(), xs, applied, first_altered, if outcome.is_ok() { "Ok" } else { "Err" });
